@@ -16,10 +16,10 @@ for line in sys.stdin:
         continue
     meta = r.get('meta') or {}
     prop = meta.get('property') or os.path.basename(
-        os.path.dirname(r['dir'])).replace('out3-', '')
+        os.path.dirname(r['dir'])).split('-')[-1]
     n = os.path.basename(r['dir'].rstrip('/'))
     tag = os.path.basename(os.path.dirname(r['dir']))
-    rnd = tag.split('-')[0].replace('out', 'n')       # out3 -> n3
+    rnd = tag.split('-')[0].replace('out', 'n')       # out3 -> n3, out4 -> n4
     dst = '/verif/neutral/%s-%s-%s' % (prop, rnd, n)
     os.makedirs(dst, exist_ok=True)
     shutil.copy(os.path.join(r['dir'], 'patch.diff'), dst)
